@@ -1,4 +1,6 @@
 """Three-valued evaluation of guard expressions (value trees) over a closed vocabulary."""
+import re
+
 from . import vt
 
 PRED_CALLS = {'is_optional', 'is_double_optional', 'is_empty', 'is_some', 'is_none', 'is_vec', 'is_hash_map'}
@@ -296,6 +298,19 @@ class Renderer:
             return (self.render(v['t'], depth + 1) + self.render(v['e'], depth + 1))[:self.cap]
         if kk == 'match':
             out = []
+            # tuple of boolean tests: `match (a, b) { (false, true) => .., (true, _) => .., (false, false) => .. }` — first matching arm
+            sc0 = vt.unvar(v.get('scrut'))
+            if isinstance(sc0, dict) and sc0.get('k') == 'tuple' and sc0.get('items'):
+                ts = [self.truth(x) for x in sc0['items']]
+                if all(t_ is not None for t_ in ts):
+                    for a in v.get('arms', []):
+                        pat = str(a.get('pat', '')).replace(' ', '')
+                        m_ = re.fullmatch(r'\((.*)\)', pat)
+                        elems = m_.group(1).rstrip(',').split(',') if m_ else None
+                        if pat == '_' or (elems and len(elems) == len(ts) and all(e_ in ('_', 'true', 'false') for e_ in elems) and all(e_ == '_' or (e_ == 'true') == t_ for e_, t_ in zip(elems, ts))):
+                            return self.render(a['v'], depth + 1)
+                        if not elems or len(elems) != len(ts) or not all(e_ in ('_', 'true', 'false') for e_ in elems):
+                            break
             for a in v.get('arms', []):
                 if isinstance(a.get('v'), dict) and a['v'].get('k') == 'never':
                     continue
